@@ -7,6 +7,12 @@ CHECKS = {
   note="Trusted: TLC, the Go harness' Project/Concretise bridge (vlib), the reading of 'stack identity' stated in the evidence assumptions. Bounds: <=3 profiles, <=3 samples per case in the exhaustive part; random traces up to 3 profiles x 8 samples x depth 3.",
   technique="TLA+ spec + TLC exhaustive case enumeration replayed on real code; TLC trace validation of recorded real executions",
   design_ref="DESIGN.md 5/C03"),
+ "C04": dict(
+  category="model_checking",
+  text="Report.tla/ReportRules.tla: TLC checks the operational graph builder (per-sample seen-node/seen-edge sets, flat to the last node) against the declarative flat/cum/edge/total/call-tree definitions over every enumerated (profile, configuration) pair; every case is rendered by the real pipeline (driver.PProf in-process) as top, tree, peek, dot, dot+call_tree, topproto and traces, independent readers extract the numbers and they must equal the spec's (Binding A); 600-6000 random recursion-heavy profiles rendered by the real code are validated by TLC against TraceReport.tla (Binding B).",
+  note="Trusted: TLC, the output readers (vdrv/parse.go), entry identity per granularity transcribed from the code (the property leaves it to the report). Bounds: 2 samples, depth<=4 exhaustive; random traces up to 8 samples x depth 6. callgrind/web-top numbers are not read here.",
+  technique="TLA+ spec + TLC exhaustive enumeration replayed on the real report pipeline; TLC trace validation of recorded real reports",
+  design_ref="DESIGN.md 5/C04"),
 }
 
 NOT_YET = "check not built yet in this session (planned in DESIGN.md section 5)"
